@@ -15,7 +15,7 @@ def check_done(ck: Check):
         n = rng.choice([1, 1, 2, 3, 5, 8])
         futs = [(rng.random() < 0.25, rng.choice([0, 1, 1000 + rng.randrange(10**6), 2**40])) for _ in range(n)]
         kind = rng.choice(["done", "done", "done", "noack", "fail"])
-        cases.append({"futs": futs, "kind": kind, "base": rng.choice([0, 1, 17, 2**40]),
+        cases.append({"futs": futs, "kind": kind, "base": rng.choice([0, 1, 17, 2**40, -1]),
                       "bts": rng.choice([-1, -1, 0, 123456789]), "ls": rng.choice([-2, 0, 5])})
     # the 3-record CreateTime batch that exposed the fixed timestamp defect runs first
     cases.insert(0, {"futs": [(False, 1000), (False, 2000), (False, 3000)], "kind": "done", "base": 100,
@@ -55,11 +55,13 @@ def check_done(ck: Check):
                 for i, x in im.get("res", []):
                     if isinstance(x, list):
                         want_ts = c["futs"][i][1] if c["bts"] == -1 else c["bts"]
-                        if x[0] != c["base"] + i or x[1] != want_ts or x[2] != (0 if c["bts"] == -1 else 1) or x[4] != 3:
+                        # an unknown base offset (-1: duplicate whose metadata the broker no longer retains) names no offset
+                        want_off = c["base"] + i if c["base"] >= 0 else -1
+                        if x[0] != want_off or x[1] != want_ts or x[2] != (0 if c["bts"] == -1 else 1) or x[4] != 3:
                             nbad += 1
                             if nbad <= 3:
                                 ck.violation(f"done(): record {i} resolved with {x[:3]}, expected offset "
-                                             f"{c['base'] + i}, timestamp {want_ts}",
+                                             f"{want_off}, timestamp {want_ts}",
                                              {"kind": "done", "case": c, "impl": real},
                                              signature=f"done:{json.dumps(c)[:80]}")
             if model != real:
